@@ -227,6 +227,23 @@ func runC17(o Opts) error {
 		if k2 := c.Clone(); fmt.Sprintf("%v", k2) != fmt.Sprintf("%v", c) { // equal as far as the permissions of doors 1..4 go
 			s.Fail(map[string]any{"op": "Card.Clone", "card": deepSnap(c)}, "a second clone differs from the original")
 		}
+		// an empty door list with spare capacity (names[:0]): the clone and the client's copy do not share its backing array
+		{
+			backing := []string{"w", "x", "y", "z"}
+			e := uhppote.Device{Name: "e", DeviceID: genID(r), Doors: backing[:0], TimeZone: time.UTC, Protocol: "udp"}
+			ek := e.Clone()
+			if cap(ek.Doors) > 0 {
+				if full := ek.Doors[:1]; &full[0] == &backing[0] {
+					s.Fail(map[string]any{"op": "Device.Clone"}, "clone of a device with an empty door list shares the list's backing array with the original")
+				}
+			}
+			u := uhppote.NewUHPPOTE(types.BindAddr{}, types.BroadcastAddr{}, types.ListenAddr{}, time.Second, []uhppote.Device{e}, false)
+			if held, ok := u.DeviceList()[e.DeviceID]; ok && cap(held.Doors) > 0 {
+				if full := held.Doors[:1]; &full[0] == &backing[0] {
+					s.Fail(map[string]any{"op": "NewUHPPOTE"}, "the client's copy of a controller with an empty door list shares the list's backing array with the caller's slice")
+				}
+			}
+		}
 		d := uhppote.Device{Name: "d", DeviceID: genID(r), Doors: []string{"a", "b", "c", "d"}, TimeZone: time.UTC, Protocol: "udp"}
 		dk := d.Clone()
 		before = fmt.Sprintf("%v", dk)
